@@ -30,6 +30,8 @@ var c06Pool = []refmodel.RouteDef{
 	{Path: "/b", Methods: []string{"OPTIONS", "TRACE"}},
 	{Path: "/*", Methods: []string{"POST", "PUT"}},
 	{Path: `/a/{n:\d+}`, Methods: []string{"DELETE", "PATCH"}},
+	// a dynamic route registered for GET and HEAD in one call
+	{Path: "/a/{x}", Methods: []string{"GET", "HEAD"}},
 }
 
 // two pool entries may not share a table when they would register the same static method+path twice
@@ -73,6 +75,9 @@ type c06Case struct {
 	// Long > 0: the paths of the requests are Long..Long+9 bytes long (matched ones first, then unmatched ones that share
 	// their first bytes with them)
 	Long int `json:"long_paths_from,omitempty"`
+	// Twin: a second router holding the same table but the OTHER StrictLastSlash setting serves every request right
+	// before this one does; the paths also come in unclean spellings (doubled / missing leading slash)
+	Twin bool `json:"twin_router_with_other_strictness_served_first,omitempty"`
 }
 
 func c06Gen(tier string, emit func(c06Case)) {
@@ -113,6 +118,9 @@ func c06Gen(tier string, emit func(c06Case)) {
 	rec(nil)
 	for _, t := range tables {
 		for o := 0; o < 16; o++ {
+			if len(t) > 0 {
+				emit(c06Case{Routes: t, NotAllowed: o&1 != 0, Fallback: o&2 != 0, Strict: o&4 != 0, Cache: o&8 != 0, Twin: true})
+			}
 			for via := 1; via < len(regAPIs) && len(t) > 0; via++ {
 				emit(c06Case{Routes: t, NotAllowed: o&1 != 0, Fallback: o&2 != 0, Strict: o&4 != 0, Cache: o&8 != 0, Via: via})
 			}
@@ -212,6 +220,9 @@ func c06Run(c c06Case, st *fw.Stats) []fw.Viol {
 		if c.Late > 0 {
 			return fmt.Sprintf("table [%s] (the last %d registered after a first round of all requests) options{notAllowed=%v fallback=%v strict=%v cache=%v}", defsString(defs), c.Late, c.NotAllowed, c.Fallback, c.Strict, c.Cache)
 		}
+		if c.Twin {
+			return fmt.Sprintf("table [%s] options{notAllowed=%v fallback=%v strict=%v cache=%v} (a second router with the same table and strict=%v serves every request first)", defsString(defs), c.NotAllowed, c.Fallback, c.Strict, c.Cache, !c.Strict)
+		}
 		if c.Via > 0 {
 			return fmt.Sprintf("table [%s] (every route registered through %s) options{notAllowed=%v fallback=%v strict=%v cache=%v}", defsString(defs), regAPIs[c.Via], c.NotAllowed, c.Fallback, c.Strict, c.Cache)
 		}
@@ -227,6 +238,34 @@ func c06Run(c c06Case, st *fw.Stats) []fw.Viol {
 			stem := "/a/" + strings.Repeat("k", L-3)
 			paths = append(paths, stem, stem+"/pub", stem[:len(stem)-1]+"j", stem+"x")
 		}
+	}
+	var twin *rux.Router
+	if c.Twin {
+		var topts []func(*rux.Router)
+		for _, o := range opts {
+			topts = append(topts, o)
+		}
+		if c.Strict {
+			// (the option list of this router without StrictLastSlash)
+			topts = nil
+			if c.NotAllowed {
+				topts = append(topts, rux.HandleMethodNotAllowed)
+			}
+			if c.Fallback {
+				topts = append(topts, rux.HandleFallbackRoute)
+			}
+			if c.Cache {
+				topts = append(topts, rux.CachingWithNum(uint16(c06CacheCap(c))))
+			}
+		} else {
+			topts = append(topts, rux.StrictLastSlash)
+		}
+		var tpv any
+		if twin, tpv = buildRouterVia(defs, nil, &hitRec{}, topts...); tpv != nil {
+			add("register:panic", fmt.Sprintf("config %+v: registration of the twin router panicked: %v", c, tpv))
+			return viols
+		}
+		paths = append(append([]string(nil), paths...), "//a/", "a/", "//a/1/", " /a/", "//b/", "zz/")
 	}
 	for round := 0; round < 2; round++ {
 		if round == 1 && c.Late > 0 {
@@ -251,6 +290,10 @@ func c06Run(c c06Case, st *fw.Stats) []fw.Viol {
 				want := tb.Resolve(m, p)
 				if want.Kind != "route" && round == 0 {
 					st.Nontrivial++
+				}
+				if twin != nil {
+					_ = try(func() { twin.Match(m, p) })
+					_, _ = serve(twin, m, p)
 				}
 				if round == 0 {
 					st.Outcome(want.Kind)
@@ -347,7 +390,7 @@ func c06Run(c c06Case, st *fw.Stats) []fw.Viol {
 var c06Spec = fw.Spec[c06Case]{
 	ID:    "C06",
 	Level: "model_checking",
-	Rule: "complete product: ordered tables of <=K routes from an 13-route pool x 2^4 option subsets {HandleMethodNotAllowed,HandleFallbackRoute,StrictLastSlash,caching (capacity 1 or 64)} x 6 InterceptAll values (listed after and before the other options) (+ every table with its last 1 or 2 routes registered only after a first round of all requests) (+ every table registered through each of the 6 other registration APIs) (+ request paths of every length 20..319 bytes against a two-route table) x {default,custom} NotFound x {default,custom} NotAllowed; per configuration 10 methods x 8 paths, each request twice through Match and ServeHTTP, vs refmodel.Resolve; " +
+	Rule: "complete product: ordered tables of <=K routes from a 14-route pool x 2^4 option subsets {HandleMethodNotAllowed,HandleFallbackRoute,StrictLastSlash,caching (capacity 1 or 64)} x 6 InterceptAll values (listed after and before the other options) (+ every table with its last 1 or 2 routes registered only after a first round of all requests) (+ every table registered through each of the 6 other registration APIs) (+ request paths of every length 20..319 bytes against a two-route table) (+ every table and option subset again, incl. six unclean path spellings, with a second router of the other StrictLastSlash setting serving every request first) x {default,custom} NotFound x {default,custom} NotAllowed; per configuration 10 methods x 8 paths, each request twice through Match and ServeHTTP, vs refmodel.Resolve; " +
 		"non-trivial = a request that is not a direct match (HEAD->GET, fallback, 405, 404)",
 	Assume: []string{"routes, paths and option values come from the stated alphabets"},
 	Bounds: func(tier string) map[string]any {
